@@ -566,6 +566,50 @@ def run_history(seed, scratch: Path, rep: Report, *, nops, weights, checks, conc
                 await observe_access(user)
                 descr.append(['observe', user['name']])
                 continue
+            elif kind == 'faulty_clean':
+                # one delete request fails for good during clean: if clean still reports success the family must be exact
+                fbk = FaultBackend(world.backend, 'fail', rng.randint(0, 2))
+                try:
+                    await world.clean(user, backend=fbk)
+                    failed = False
+                except Exception:
+                    failed = True
+                descr.append(['clean-with-a-failing-delete', user['name'], 'failed' if failed else 'completed'])
+                ch_, _, _ = world.lift()
+                if not failed:
+                    extra_ = {c for c in ch_ if c[0] == user['fam']} - world.referenced()
+                    if extra_ and 'exact' in checks:
+                        viol('gc_incomplete', f'clean reported success but left {len(extra_)} unreferenced chunk(s) of the caller\'s family')
+                segments.append([world.model_store(), [], []])
+                ops_model, observed = segments[-1][1], segments[-1][2]
+                continue
+            elif kind == 'interrupted_delete':
+                if not own:
+                    continue
+                names = rng.sample(own, 1)
+                fbk = FaultBackend(world.backend, 'crash', rng.randint(0, 4))
+                try:
+                    await world.delete(user, names, backend=fbk)
+                except BaseException:
+                    pass
+                for _ in range(2000):
+                    if not fbk.inflight:
+                        break
+                    await asyncio.sleep(0.001)
+                await asyncio.sleep(0.005)
+                descr.append(['interrupted-delete', user['name']])
+                # a completed clean afterwards must leave the family exact (orphans collected, nothing referenced missing)
+                await cmd(world.clean(user), 'clean')
+                descr.append(['clean', user['name']])
+                ch_, _, _ = world.lift()
+                ref_ = world.referenced()
+                fam_ = user['fam']
+                if 'exact' in checks and {c for c in ch_ if c[0] == fam_} != {c for c in ref_ if c[0] == fam_}:
+                    viol('gc_incomplete', f'after an interrupted delete and a completed clean the family has '
+                                          f'{len({c for c in ch_ if c[0] == fam_} - ref_)} unreferenced and {len({c for c in ref_ if c[0] == fam_} - ch_)} missing chunk(s)')
+                segments.append([world.model_store(), [], []])
+                ops_model, observed = segments[-1][1], segments[-1][2]
+                continue
             elif kind == 'flaky_gc':
                 # delete or clean while ONE read of a snapshot object comes back truncated: the command may fail
                 # (then nothing may have changed) or succeed; it must never proceed on a partial view
